@@ -43,10 +43,10 @@ def cases(tier, seed):
             words = ["".join(w) for w in itertools.product("ACG", repeat=n)]
             for j in range(0, len(words), 8):
                 out.append({"kind": "exh", "alpha": "ACG", "words": words[j:j + 8]})
-    nr = 300 if tier == "quick" else 20000
+    nr = 300 if tier == "quick" else 150000
     out += [{"kind": "rand", "i": i, "seed": seed} for i in range(nr)]
-    out += [{"kind": "ops", "i": i, "seed": seed} for i in range(30 if tier == "quick" else 500)]
-    out += _embedded.assembly_cases(seed, 24 if tier == "quick" else 600)
+    out += [{"kind": "ops", "i": i, "seed": seed} for i in range(30 if tier == "quick" else 3000)]
+    out += _embedded.assembly_cases(seed, 24 if tier == "quick" else 3000)
     return out
 
 
